@@ -1,6 +1,7 @@
+\* devNoBackEdge2
 SPECIFICATION Spec
 CONSTANTS
-  Cand <- Cand4
+  Cand <- Cand3
   MandSeq <- Mand1
   DscMandatory = TRUE
   FlipReset = FALSE
@@ -16,7 +17,4 @@ INVARIANT Inv_W2
 INVARIANT Inv_W3
 INVARIANT Inv_W4
 INVARIANT Inv_Verdict
-INVARIANT Inv_LoopGraph
-INVARIANT Inv_ClosureAgrees
-PROPERTY Terminates
 CHECK_DEADLOCK FALSE
